@@ -167,22 +167,22 @@ Proof. exact freshline_tab_take_nothing. Qed.
 Print Assumptions C15_freshline_tab_take_nothing.
 
 (* (9) ~{body~} and ~:{body~} take exactly one argument — the list — whatever the body is, whatever it does and
-   however many elements there are; the enclosing control only gets text appended. By the definition the list
-   must be present. *)
+   however many elements there are; the enclosing control only gets text appended. The list must be present, for
+   the definition and (since repo_fixes/C15-14) for the Go code. *)
 Theorem C15_iteration_consumes_its_list : forall b fuel rec colon ps c c' a v,
   arg_at c = Some v ->
   dir_iter b fuel rec colon false ps c = Ok (c', a) ->
   a = false /\ c_apos c' = (c_apos c + 1)%Z /\ as_list v <> None /\ extends c c'.
 Proof. exact iteration_consumes_its_list. Qed.
 Print Assumptions C15_iteration_consumes_its_list.
-Theorem C15_iteration_needs_its_list : forall fuel rec colon ps c c' a,
-  dir_iter false fuel rec colon false ps c = Ok (c', a) -> arg_at c <> None.
+Theorem C15_iteration_needs_its_list : forall b fuel rec colon ps c c' a,
+  dir_iter b fuel rec colon false ps c = Ok (c', a) -> arg_at c <> None.
 Proof. exact iteration_needs_its_list. Qed.
 Print Assumptions C15_iteration_needs_its_list.
 
 (* (10) ~? takes two arguments, the control string and the list of its arguments, whatever that string does. *)
-Theorem C15_indirection_consumes_two : forall b rec c c' a v, arg_at c = Some v ->
-  dir_proc b rec false c = Ok (c', a) ->
+Theorem C15_indirection_consumes_two : forall rec c c' a v, arg_at c = Some v ->
+  dir_proc rec false c = Ok (c', a) ->
   a = false /\ c_apos c' = (c_apos c + 2)%Z /\ (exists s, v = VStr s) /\ c_args c' = c_args c.
 Proof. exact indirection_consumes_two. Qed.
 Print Assumptions C15_indirection_consumes_two.
